@@ -168,6 +168,20 @@ def case(task):
                                 np.abs(x[mask]).max() for x in mine)))
                             inv = r2['Weyl_invariants']
                             states[name] = (inv['I'], inv['J'], mask)
+                            if tet == 'other' and not tilt:
+                                # the options documented as 'also
+                                # attribute' (tetrad, vacuum, Lambda) set
+                                # after construction: same scalars
+                                r3, _, _, _ = gc.build_core(
+                                    desc, seed, p, N, with_T=not vacuum,
+                                    vacuum=vacuum, lambda_attr=True,
+                                    extra_kw={'tetrad': tet})
+                                r3.data['st_Weyl_down4'] = C
+                                r3.var_importance['st_Weyl_down4'] = 0
+                                psis3 = r3['Weyl_Psi']
+                                put('attribute-style:Weyl_Psi', max(
+                                    float(np.abs(a - b).max()) / S
+                                    for a, b in zip(psis, psis3)), 1.0)
                         # (f) invariants independent of the tetrad
                         (I0, J0, _), (I1, J1, _) = states['other'], states[
                             'other/tilted']
@@ -187,7 +201,8 @@ def case(task):
     return res
 
 
-ROUNDOFF = ('E_u=C.u.u', 'B_u=*C.u.u', 'tetrad-orthonormal')
+ROUNDOFF = ('E_u=C.u.u', 'B_u=*C.u.u', 'tetrad-orthonormal',
+            'attribute-style')
 
 
 def build_tasks(tier, seed):
